@@ -7,6 +7,7 @@
 //! level 5.5 the `luars` compiler as reference acceptor.
 use crate::exprgen::{self, E};
 use crate::progen;
+use crate::strgen;
 use emmylua_code_analysis::{DiagnosticCode, EmmyrcLuaVersion, VirtualWorkspace};
 use emmylua_parser::{
     LexerConfig, LuaKind, LuaLanguageLevel, LuaLexer, LuaParser, LuaSyntaxKind, LuaSyntaxNode, LuaTokenKind,
@@ -497,6 +498,177 @@ pub fn malformed_class(text: &str) -> Value {
     Value::Null
 }
 
+// ------------------------------------------------------------------------------------------ strings / comments
+
+struct StrCase {
+    level: &'static str,
+    text: String,
+    valid: Option<bool>,
+    why: &'static str,
+}
+
+fn str_input(c: &StrCase) -> Value {
+    json!({"kind": "literal", "level": c.level, "text": c.text, "text_hex": hex(&c.text), "expect": match c.valid { Some(true) => "accept", Some(false) => "reject", None => "" }})
+}
+
+/// classifier of string literals for known findings (computed from the input text only)
+pub fn string_class(text: &str) -> Value {
+    let b: Vec<char> = text.chars().collect();
+    if b.is_empty() || (b[0] != '"' && b[0] != '\'') {
+        return Value::Null;
+    }
+    let mut i = 1;
+    while i < b.len() {
+        if b[i] == '\\' && i + 1 < b.len() {
+            let e = b[i + 1];
+            if e.is_ascii_digit() {
+                let mut j = i + 1;
+                let mut v = 0u32;
+                while j < b.len() && j < i + 4 && b[j].is_ascii_digit() {
+                    v = v * 10 + b[j].to_digit(10).unwrap();
+                    j += 1;
+                }
+                if v > 255 {
+                    return json!("string-decimal-escape-above-255");
+                }
+                i = j;
+                continue;
+            }
+            if e == 'u' {
+                return json!("string-unicode-escape");
+            }
+            if e == 'z' {
+                let mut j = i + 2;
+                while j < b.len() && (b[j] == ' ' || b[j] == '\t' || b[j] == '\r' || b[j] == '\n') {
+                    j += 1;
+                }
+                if j < b.len() && (b[j] == '\x0B' || b[j] == '\x0C') {
+                    return json!("string-z-skips-vt-ff");
+                }
+            }
+            if !"abfnrtvxz\\\"'\n\r".contains(e) {
+                return json!("string-unknown-escape");
+            }
+            i += 2;
+            continue;
+        }
+        i += 1;
+    }
+    Value::Null
+}
+
+fn check_strs(cases: &[StrCase], report: &mut Report, diag: &mut Diag, r55: &mut Ref55, seen: &mut HashSet<String>) {
+    let mut reqs: Vec<String> = Vec::new();
+    for c in cases {
+        reqs.push(format!("climb.strlex {}", hex(&c.text)));
+    }
+    let resps = run_driver(&reqs);
+    let mut chk_reqs: Vec<String> = Vec::new();
+    let mut chk_idx: Vec<(usize, bool)> = Vec::new();
+    for (ci, (c, m)) in cases.iter().zip(resps.iter()).enumerate() {
+        report.evaluations += 1;
+        report.count(match c.valid { Some(true) => "lit_valid", Some(false) => "lit_invalid", None => "lit_tie_only" });
+        let level = level_of(c.level);
+        let mut errs = Vec::new();
+        let toks = LuaLexer::new(Reader::new(&c.text), LexerConfig::new(level), Some(&mut errs)).tokenize();
+        let Some(first) = toks.first() else { continue };
+        let first_errs = errs.iter().filter(|e| usize::from(e.range.start()) == first.range.start_offset).count();
+        let chars = c.text[first.range.start_offset..first.range.end_offset()].chars().count();
+        let kind = match first.kind {
+            LuaTokenKind::TkString => "string",
+            LuaTokenKind::TkLongString => "longstring",
+            LuaTokenKind::TkLeftBracket => "leftbracket",
+            LuaTokenKind::TkShortComment => "shortcomment",
+            LuaTokenKind::TkLongComment => "longcomment",
+            _ => "other",
+        };
+        let imp = format!("ok {kind} {chars} {}", if first_errs > 0 { 1 } else { 0 });
+        if &imp != m {
+            report.mismatch(json!({"input": str_input(c), "model": m, "impl": imp, "tie": "climb.strlex vs LuaLexer (kind, chars, error)"}));
+        } else {
+            report.traces_validated += 1;
+        }
+        if seen.insert(format!("lit|{}|{}", c.level, c.text)) && c.text.chars().count() > 3 {
+            report.distinct_nontrivial += 1;
+        }
+        if first.kind == LuaTokenKind::TkString && first_errs == 0 {
+            // escape check of the syntax-error checker on the complete token
+            let tok = &c.text[first.range.start_offset..first.range.end_offset()];
+            let src = format!("{EXPR_PREFIX}{tok}");
+            let d = diag.syntax_errors(c.level, &src);
+            let real = d.iter().any(|m| m.contains("escape sequence"));
+            chk_reqs.push(format!("climb.strcheck {}", hex(tok)));
+            chk_idx.push((ci, real));
+        }
+        // ---- oracle
+        if let Some(valid) = c.valid {
+            let src = format!("{EXPR_PREFIX}{}", c.text);
+            let d = diag.syntax_errors(c.level, &src);
+            let mut valid = valid;
+            if c.level == "Lua55" {
+                // the reference compiler decides at 5.5
+                match r55.compile(&src) {
+                    Ok(()) => {
+                        if !valid {
+                            report.count("lit_ref55_accepts_generator_invalid");
+                        }
+                        valid = true;
+                    }
+                    Err(msg) => {
+                        if valid {
+                            report.count("lit_ref55_rejects_generator_valid");
+                            if report.notes.len() < 12 {
+                                report.notes.push(format!("5.5 reference rejects a literal the generator calls valid ({msg}): {:?}", c.text));
+                            }
+                        }
+                        valid = false;
+                    }
+                }
+            }
+            if valid && !d.is_empty() {
+                report.oracle_failure(json!({"input": str_input(c), "class": string_class(&c.text),
+                    "what": format!("valid {} literal ({}) reported as syntax error: {}", c.level, c.why, d[0])}));
+            } else if !valid && d.is_empty() {
+                report.oracle_failure(json!({"input": str_input(c), "class": string_class(&c.text),
+                    "what": format!("invalid {} literal ({}) produces no syntax-error diagnostic", c.level, c.why)}));
+            }
+        }
+        if report.samples.len() < 8 && ci % 997 == 3 {
+            report.sample(json!({"literal": c.text, "level": c.level, "model": m}));
+        }
+    }
+    if !chk_reqs.is_empty() {
+        let r = run_driver(&chk_reqs);
+        for ((ci, real), m) in chk_idx.iter().zip(r.iter()) {
+            let want = if *real { "ok 1" } else { "ok 0" };
+            if m != want {
+                report.mismatch(json!({"input": str_input(&cases[*ci]), "model": m, "impl": want, "tie": "climb.strcheck vs check_normal_string_error (escape diagnostics)"}));
+            } else {
+                report.traces_validated += 1;
+            }
+        }
+    }
+}
+
+fn gen_str_cases(rng: &mut Rng, n: usize, out: &mut Vec<StrCase>) {
+    for i in 0..n {
+        let (lname, lv) = STD_LEVELS[i % STD_LEVELS.len()];
+        let follow = *rng.pick(&["", " ", "\n", ")", " .. x", ":len()"]);
+        match rng.below(10) {
+            0..=5 => {
+                let l = strgen::short_string(rng, lv);
+                out.push(StrCase { level: lname, text: l.text, valid: l.valid, why: l.why });
+            }
+            6..=8 => {
+                let l = strgen::long_bracket(rng);
+                let valid = l.valid;
+                out.push(StrCase { level: lname, text: if valid == Some(true) && follow != ")" { format!("{}{}", l.text, if follow == " .. x" || follow == ":len()" { "" } else { follow }) } else { l.text }, valid, why: l.why });
+            }
+            _ => out.push(StrCase { level: lname, text: strgen::comment(rng), valid: None, why: "comment" }),
+        }
+    }
+}
+
 // ------------------------------------------------------------------------------------------ programs
 
 fn prog_input(level: &str, text: &str, expect: &str) -> Value {
@@ -577,6 +749,30 @@ fn check_program(level: &'static str, text: &str, expect: &str, why: &str, use_d
     }
 }
 
+/// one replayable input (`--replay` file or corpus entry)
+fn run_input(input: &Value, report: &mut Report, diag: &mut Diag, r55: &mut Ref55, seen: &mut HashSet<String>) {
+    let level: &'static str = STD_LEVELS.iter().map(|x| x.0).chain(["LuaJIT2", "LuaJIT", "LuaJIT3"]).find(|l| Some(*l) == input.get("level").and_then(|x| x.as_str())).unwrap_or("Lua55");
+    let text = input.get("text").and_then(|x| x.as_str()).unwrap_or("").to_string();
+    let expect = input.get("expect").and_then(|x| x.as_str()).unwrap_or("").to_string();
+    match input.get("kind").and_then(|x| x.as_str()) {
+        Some("expr") => check_exprs(&[ExprCase { level, text, intended: None, origin: "replay" }], report, r55, seen),
+        Some("numeral") => {
+            let malformed = expect == "reject" || !malformed_class(&text).is_null();
+            let valid = if malformed { Some(false) } else { None };
+            check_nums(&[NumCase { level, text, valid, len: 0, kind: "" }], report, diag, seen);
+        }
+        Some("literal") => {
+            let valid = match expect.as_str() { "accept" => Some(true), "reject" => Some(false), _ => None };
+            check_strs(&[StrCase { level, text, valid, why: "replay" }], report, diag, r55, seen);
+        }
+        Some("program") => {
+            let expect = if expect.is_empty() { "accept".to_string() } else { expect };
+            check_program(level, &text, &expect, "replay", true, report, diag, r55);
+        }
+        _ => report.notes.push("replay input has no recognised kind".into()),
+    }
+}
+
 pub fn run(args: &Args, report: &mut Report) {
     let thorough = args.thorough();
     let mut rng = Rng::new(args.seed);
@@ -587,25 +783,20 @@ pub fn run(args: &Args, report: &mut Report) {
 
     if let Some(path) = &args.replay {
         let v: Value = serde_json::from_str(&std::fs::read_to_string(path).expect("replay file")).expect("replay json");
-        let input = v.get("input").cloned().unwrap_or(Value::Null);
-        let level: &'static str = STD_LEVELS.iter().map(|x| x.0).chain(["LuaJIT2", "LuaJIT", "LuaJIT3"]).find(|l| Some(*l) == input.get("level").and_then(|x| x.as_str())).unwrap_or("Lua55");
-        let text = input.get("text").and_then(|x| x.as_str()).unwrap_or("").to_string();
-        match input.get("kind").and_then(|x| x.as_str()) {
-            Some("expr") => check_exprs(&[ExprCase { level, text, intended: None, origin: "replay" }], report, &mut r55, &mut seen),
-            Some("numeral") => {
-                let valid = None;
-                check_nums(&[NumCase { level, text: text.clone(), valid, len: 0, kind: "" }], report, &mut diag, &mut seen);
-                if !malformed_class(&text).is_null() {
-                    check_nums(&[NumCase { level, text, valid: Some(false), len: 0, kind: "" }], report, &mut diag, &mut seen);
-                }
-            }
-            Some("program") => {
-                let expect = input.get("expect").and_then(|x| x.as_str()).unwrap_or("accept").to_string();
-                check_program(level, &text, &expect, "replay", true, report, &mut diag, &mut r55);
-            }
-            _ => report.notes.push("replay file has no recognised input".into()),
-        }
+        run_input(&v.get("input").cloned().unwrap_or(Value::Null), report, &mut diag, &mut r55, &mut seen);
         return;
+    }
+
+    // 0. corpus: inputs of past (fixed) failures, replayed first
+    let mut corpus: Vec<_> = std::fs::read_dir("/verif/corpus/C03").map(|d| d.filter_map(|e| e.ok()).map(|e| e.path()).collect()).unwrap_or_default();
+    corpus.sort();
+    for path in corpus {
+        if let Ok(text) = std::fs::read_to_string(&path) {
+            if let Ok(v) = serde_json::from_str::<Value>(&text) {
+                run_input(&v.get("input").cloned().unwrap_or(Value::Null), report, &mut diag, &mut r55, &mut seen);
+                report.count("corpus_cases");
+            }
+        }
     }
 
     // 1. expressions
@@ -621,6 +812,13 @@ pub fn run(args: &Args, report: &mut Report) {
     gen_num_cases(&mut rng, if thorough { 100_000 } else { 5_000 }, &mut nums);
     for chunk in nums.chunks(10_000) {
         check_nums(chunk, report, &mut diag, &mut seen);
+    }
+
+    // 2b. string literals, long brackets, comments
+    let mut strs = Vec::new();
+    gen_str_cases(&mut rng, if thorough { 60_000 } else { 3_000 }, &mut strs);
+    for chunk in strs.chunks(5_000) {
+        check_strs(chunk, report, &mut diag, &mut r55, &mut seen);
     }
 
     // 3. whole programs (search only: the statement grammar is not modelled)
